@@ -383,6 +383,15 @@ func generate(seed int64, n int, tier string, names []string) []Case {
 		cfg := configs[int((seed+int64(i))%int64(len(configs))+int64(len(configs)))%len(configs)]
 		cases = append(cases, Case{Kind: "suite", Server: "reference", Config: cfg, Order: order, Seed: seed})
 	}
+	if tier != "thorough" {
+		// the quick tier runs few permutations: make sure one of them uses names other than the built-in defaults
+		perm := rng.Perm(len(names))
+		order := make([]string, len(names))
+		for j, p := range perm {
+			order[j] = names[p]
+		}
+		cases = append(cases, Case{Kind: "suite", Server: "reference", Config: configs[2], Order: order, Seed: seed})
+	}
 	if tier == "thorough" {
 		// every test as the first test on a fresh server, at the lowest election id and in every configuration
 		for i, cfg := range configs {
